@@ -268,6 +268,45 @@ fn socket_case(s: &Shape) -> Result<Option<(String, String)>, String> {
     Ok(None)
 }
 
+/// An oversized request whose body arrives in three pieces with pipelined requests behind the
+/// last piece: the discard loop must not panic, over-read or stall.
+fn socket_split_case(opcode: u8, body_len: u32) -> Result<Option<(String, String)>, String> {
+    let w = NetWorld::new(NetCfg { item_limit: LIMIT, ..Default::default() })?;
+    let p0 = crate::sut::thread_panics();
+    let mut c = w.connect()?;
+    let mut big = Req::new(opcode).opaque(0xb16);
+    big.key = b"k".to_vec();
+    big.value = vec![0x42; body_len as usize - 1];
+    let bytes = big.bytes();
+    let mut tail = bytes[24 + 100 + (body_len as usize - 100) / 3..].to_vec();
+    tail.extend(Req::bare(op::NOOP).opaque(0x51).bytes());
+    tail.extend(Req::get(op::GET, b"k").opaque(0x52).bytes());
+    let _ = c.step(&w, &bytes[..24 + 100]);
+    let _ = c.step(&w, &bytes[24 + 100..24 + 100 + (body_len as usize - 100) / 3]);
+    let _ = c.step(&w, &tail);
+    w.settle();
+    c.pump();
+    let name = format!("socket: oversized op={:#x} body {} in three pieces + noop + get", opcode, body_len);
+    if crate::sut::thread_panics() > p0 {
+        let p = crate::sut::take_last_panic().unwrap_or_default();
+        let site = p.rsplit('@').next().unwrap_or("").trim().to_string();
+        return Ok(Some((format!("panic|{}", site), format!("{}: a server task panicked: {}", name, p))));
+    }
+    let (resps, residue) = wire::split_responses(&c.got);
+    if residue != 0 {
+        return Ok(Some(("response-residue".into(), format!("{}: response stream not frame aligned", name))));
+    }
+    // each request is answered, or the connection is closed
+    if !c.eof && resps.len() != 3 {
+        w.advance(61);
+        c.pump();
+        if !c.eof {
+            return Ok(Some(("hang|connection-open".into(), format!("{}: {} of 3 requests answered and the connection still open after 61 s", name, resps.len()))));
+        }
+    }
+    Ok(None)
+}
+
 pub fn check(tier: Tier, threads: usize) -> CheckOutcome {
     let t0 = Instant::now();
     let all = shapes(tier);
@@ -320,6 +359,23 @@ pub fn check(tier: Tier, threads: usize) -> CheckOutcome {
             Ok(None) => {}
         }
     }
+    let mut split_cases: Vec<(u8, u32)> = vec![];
+    for opc in [op::SET, op::GET, op::INCR, op::NOOP, op::TOUCH, op::APPENDQ, op::QUIT] {
+        for l in [LIMIT + 150, 2 * LIMIT, LIMIT + 70_000, LIMIT + 200_000] {
+            split_cases.push((opc, l));
+        }
+    }
+    let spres = par_map(&split_cases, threads, |_, (o, l)| socket_split_case(*o, *l));
+    for r in spres {
+        match r {
+            Err(e) => mach = Some(e),
+            Ok(Some((sig, what))) => {
+                failing += 1;
+                found.entry(sig.clone()).or_insert(Violation { signature: sig, what, replay: json!({"engine": "c10-socket-split"}) });
+            }
+            Ok(None) => {}
+        }
+    }
     let samples: Vec<serde_json::Value> = all.iter().step_by((all.len() / 6).max(1)).take(6).map(|s| json!(format!("{:?}", s))).collect();
     CheckOutcome {
         property: "C10".into(),
@@ -330,6 +386,7 @@ pub fn check(tier: Tier, threads: usize) -> CheckOutcome {
             "distinct_nontrivial": all.len() + sock.len(),
             "grid_cases_in_process": all.len(),
             "grid_cases_on_socket": sock.len(),
+            "oversized_three_piece_socket_cases": split_cases.len(),
             "cases_failing": failing,
             "samples": samples,
             "exhaustive": true,
